@@ -268,3 +268,66 @@ pub fn c08(ctx: &Ctx) -> (CheckMeta, Outcome) {
     };
     (meta, out)
 }
+
+pub fn code_write_ops() -> Vec<WOp> {
+    use crate::model::Code;
+    let mut a = vec![];
+    let codes = [Code::Gamma, Code::Delta, Code::Zeta(3), Code::Zeta(2), Code::Omega, Code::Pi(2), Code::Rice(2), Code::Golomb(3), Code::ExpGolomb(1), Code::MinBin(5), Code::VByteBe, Code::VByteLe, Code::Unary];
+    for c in codes {
+        for v in [0u64, 1, 5, 63, 64, 1000, 70000] {
+            if !crate::grid::in_domain(c, v) || (c == Code::Unary && v > 100) {
+                continue;
+            }
+            for op in crate::streams::write_variants(c, v) {
+                if !matches!(op, WOp::Disp { .. }) {
+                    a.push(op);
+                }
+            }
+        }
+    }
+    a
+}
+
+/// C14, write side.
+pub fn c14_write(ctx: &Ctx) -> Outcome {
+    let mut tasks: Vec<Task> = vec![];
+    for e in End::BOTH {
+        for wbits in WBITS {
+            for wrapper in ["count", "dbg"] {
+                if !ctx.thorough && wrapper == "dbg" && wbits != 64 {
+                    continue;
+                }
+                let seed = ctx.seed;
+                let thorough = ctx.thorough;
+                tasks.push(Box::new(move || {
+                    let mut alph = boundary_alphabet(wbits, seed, true);
+                    alph.extend(code_write_ops());
+                    for (k, n) in [(0u16, 1u16), (3, 17), (1, 64), (0, 65), (5, 130)] {
+                        for from in [false, true] {
+                            alph.push(WOp::CopyIn { src: 2, k, peek: false, n, from });
+                        }
+                    }
+                    let mut last = boundary_alphabet(wbits, seed, false);
+                    last.truncate(6);
+                    last.push(WOp::Flush);
+                    let alphabets = if thorough { vec![alph.clone(), alph.clone(), alph.clone()] } else { vec![alph.clone(), alph.clone(), last] };
+                    let run = WrRun { property: "C14", e, wbits, wrapper, depth: 3, alphabets: &alphabets, fixpoint: false, max_states: 2_000_000, real_backends: false, check_counter: true, leaf_combos: 0 };
+                    explore(&run)
+                }));
+            }
+        }
+    }
+    run_all(tasks, threads())
+}
+
+pub fn c14(ctx: &Ctx) -> (CheckMeta, Outcome) {
+    let mut out = crate::props::readers::c14_read(ctx);
+    out.merge(c14_write(ctx));
+    let meta = CheckMeta {
+        property: "C14".into(),
+        level: "model_checking".into(),
+        rule: "the reader BFS (to the fixpoint) and the writer BFS (depth 3) are re-run with the object wrapped in CountBitReader/CountBitWriter and DbgBitReader/DbgBitWriter; alphabet = every trait method reachable through the wrapper: read_bits/peek/skip/unary, the parameterless gamma/delta/zeta methods, every table-parameterised variant (which reach the stream through the wrapper's peek_bits/skip_bits_after_peek), omega, pi, rice, golomb, exp-golomb, minimal binary, vbyte, copy_to/copy_from, flush; oracle: values, delivered words and positions identical to the unwrapped model; bits_read = bits consumed (= inner bit_pos) and bits_written = bits written by operations, after EVERY transition including flushes".into(),
+        assumptions: vec!["flush padding is not counted as written bits (flush reports pending bits, which were counted when written)".into()],
+    };
+    (meta, out)
+}
